@@ -1,6 +1,7 @@
 (* C18 -- `env` exposes the process environment, nothing else, and cannot be shadowed
    (stated on the definitional semantics; C01 ties it to the compiled form). *)
-From Ucg Require Import sem.Sem sem.Env_Lemmas sem.Scope_Lemmas.
+From Ucg Require Import sem.Sem sem.Env_Lemmas sem.Scope_Lemmas base.Bytes.
+From UcgGen Require Import Reserved.
 
 Section C18.
   Variable fo : float_ops.
@@ -49,3 +50,7 @@ Example env_field_is_field :
     eval fo 5 {| sc := []; self_v := None; envt := [(b "X", b "secret")]; strict := true; eq_ordered := true |}
          (EBin DOT (ETuple [(b "env", EInt 7)]) (ESym (b "env"))) = Ok (VInt fo 7).
 Proof. intros fo. reflexivity. Qed.
+
+(* `env` is one of the words the real VM refuses to bind (gen/Reserved.v is regenerated from `fn reserved_words` of vm.rs) *)
+Theorem env_is_reserved_in_the_sources : existsb (bytes_eqb (b "env")) gen_reserved = true.
+Proof. vm_compute. reflexivity. Qed.
